@@ -88,11 +88,12 @@ class FullFrontend(ConstrainedFrontend):
         if len(self._to_add) > 0:
             self._add_constraints()
 
-        solver = self._tls.solver
         if self._solver_backend.reuse_z3_solver:
-            # we must re-add all constraints
+            # the one Z3 solver of this thread is shared by all frontends and may hold what another frontend (or a
+            # branch of this one) asserted: fetch it again, which resets it, and re-add all constraints
+            self._tls.solver = self._solver_backend.solver(timeout=self.timeout, max_memory=self.max_memory)
             self._add_constraints()
-        return solver
+        return self._tls.solver
 
     def _add_constraints(self):
         self._solver_backend.add(self._tls.solver, self.constraints, track=self._track)
